@@ -195,7 +195,7 @@ int fcntl(int fd, int cmd, ...) {
     if (it == G.fds.end()) { errno = EBADF; return -1; }
     if (cmd == F_SETLKW) { t_in_sim--; blocks("fcntl(F_SETLKW)"); t_in_sim++; return 0; }
     if (cmd == F_GETFL) return (int)(it->second.flags | (it->second.nonblock ? O_NONBLOCK : 0));
-    if (cmd == F_SETFL) { it->second.nonblock = (arg & O_NONBLOCK) != 0; if (arg & O_APPEND) it->second.flags |= O_APPEND; return 0; }
+    if (cmd == F_SETFL) { it->second.nonblock = (arg & O_NONBLOCK) != 0; it->second.flags = (it->second.flags & ~(long)(O_NONBLOCK | O_APPEND)) | (arg & (O_NONBLOCK | O_APPEND)); return 0; }
     if (cmd == F_GETFD) return it->second.cloexec ? FD_CLOEXEC : 0;
     if (cmd == F_SETFD) { it->second.cloexec = (arg & FD_CLOEXEC) != 0; return 0; }
     return 0;
